@@ -28,7 +28,15 @@ def names : Nat → Str → List Str
 def namesOf (s : Str) : List Str := names (s.length + 1) s
 
 /-- the entries an update's key reaches -/
-def hits (pom : Pom) (u : Upd) : List Dep := pom.deps.filter fun d => d.key = u.key
+def hits (pom : Pom) (u : Upd) : List Dep :=
+  pom.deps.filter fun d => d.key = u.key || interpKey (coordDict pom) d = u.key
+
+/-- class predicate of C13/pom-key-property: the requirement an update addresses is a dependency whose coordinates use a
+property of the pom (`<groupId>${grp}</groupId>`): `Read` interpolates it, the writer resolves only the project's own
+coordinates in a key, takes the update for a key the pom does not hold and adds a dependencyManagement entry instead -/
+def keyProperty (pom : Pom) (us : List Upd) : Bool :=
+  us.any fun u => pom.deps.any fun d =>
+    !hasPrefix sProfile d.origin && interpKey (dict pom) d = u.key && !(d.key = u.key || interpKey (coordDict pom) d = u.key)
 
 /-- where a property patch for dependency `d` can be written: the project's `<properties>` or the
 `<properties>` of the dependency's own profile -/
@@ -47,7 +55,8 @@ def otherProfileProp (pom : Pom) (us : List Upd) : Bool :=
 (The classes key-whitespace, undefined-property and props-repeated-name were repaired by fixes 5743d35a,
 f5d17448 and d4dd80ce.) -/
 def feature (pom : Pom) (us : List Upd) : Option String :=
-  if us.any (fun u => (hits pom u).length ≥ 2) then some "C13/pom-origin-ignored"
+  if keyProperty pom us then some "C13/pom-key-property"
+  else if us.any (fun u => (hits pom u).length ≥ 2) then some "C13/pom-origin-ignored"
   else if otherProfileProp pom us then some "C13/pom-property-other-profile"
   else if us.any (fun u => (hits pom u).any fun d =>
       (namesOf d.ver).any fun n => pom.deps.any fun d' => d' ≠ d && (namesOf d'.ver).contains n) then
